@@ -274,6 +274,15 @@ func runC16(c *fw.Case) {
 		invalidLegacyMinter = true
 		invalidLegacy = "last emission period has an end time"
 	}
+	// the previous version accepted the emission periods in any stored order (its validation
+	// sorted them): one valid staged state in three keeps them in a shuffled order
+	shuffledLegacyMinter := false
+	if !invalidLegacyMinter && len(legacyMinter.MinterConfig.Minters) >= 3 && r.Intn(3) == 0 {
+		ms := legacyMinter.MinterConfig.Minters
+		r.Shuffle(len(ms), func(i, j int) { ms[i], ms[j] = ms[j], ms[i] })
+		shuffledLegacyMinter = true
+		c.Count("legacy_minter_periods_stored_out_of_order", 1)
+	}
 	stageErr := func() (err error) {
 		defer func() {
 			if rec := recover(); rec != nil {
@@ -284,7 +293,8 @@ func runC16(c *fw.Case) {
 		if !ms.HasKeyTable() {
 			ms = ms.WithKeyTable(minttypes.ParamKeyTable())
 		}
-		if invalidLegacyMinter {
+		if invalidLegacyMinter || shuffledLegacyMinter {
+			// SetParamSet would run the legacy validation, which sorts the staged slice in place
 			ms.Set(ctx, minttypes.KeyMintDenom, legacyMinter.MintDenom)
 			ms.Set(ctx, minttypes.KeyMinterConfig, legacyMinter.MinterConfig)
 		} else {
@@ -507,8 +517,17 @@ func runC16(c *fw.Case) {
 	if mp.MintDenom != mc.Params.MintDenom || !mp.StartTime.Equal(mc.Params.StartTime) || len(mp.Minters) != len(mc.Sorted) {
 		c.Violate("C16/minter-params-changed", "migrated minter params differ from the legacy ones (denom/start/period count)")
 	} else {
-		for i, m := range mp.Minters {
-			o := mc.Sorted[i]
+		bySeq := map[uint32]*minttypes.Minter{}
+		for _, o := range mc.Sorted {
+			bySeq[o.SequenceId] = o
+		}
+		for _, m := range mp.Minters {
+			o := bySeq[m.SequenceId] // the same schedule, in whatever order the periods are stored
+			if o == nil {
+				c.Violate("C16/minter-params-changed", "migrated minter period %d does not exist in the legacy params", m.SequenceId)
+				continue
+			}
+			delete(bySeq, m.SequenceId)
 			same := m.SequenceId == o.SequenceId && ((m.EndTime == nil) == (o.EndTime == nil)) && (m.EndTime == nil || m.EndTime.Equal(*o.EndTime)) && m.Config != nil && m.Config.TypeUrl == o.Config.TypeUrl
 			if same {
 				switch cfg := m.Config.GetCachedValue().(type) {
